@@ -34,7 +34,7 @@ COMPONENTS = {
 }
 BUDGET = {"quick": {"off_runs": 500, "on_runs": 80, "timeout": 400}, "thorough": {"budget_s": 900}}
 
-QUICK_SOURCES = ["qh", "mpas", "band", "band2", "mix", "cube"]
+QUICK_SOURCES = ["qh", "mpas", "band", "band2", "mix", "cube", "mixe"]
 THOROUGH_SOURCES = QUICK_SOURCES + ["ico", "cap", "mpasd", "exo"]
 
 CATALOGUE = {
@@ -45,6 +45,7 @@ CATALOGUE = {
     "band": {"kind": "mesh", "mesh": "band", "params": {"nx": 8, "ny": 3}, "prov": "topology"},
     "band2": {"kind": "mesh", "mesh": "band", "params": {"nx": 8, "ny": 3}, "prov": "topology"},
     "mix": {"kind": "mesh", "mesh": "mix", "params": {"lon_c": 176.0}, "prov": "topology", "dialect": {"fill": -1, "start": 1}},
+    "mixe": {"kind": "mesh", "mesh": "mix", "params": {"lon_c": -120.0, "lat_c": -30.0}, "variant": 2, "prov": "topology", "dialect": {"fill": -1, "extra": ["edge_nodes", "edge_lonlat", "face_xyz"], "xyz_scale": 2.0}},
     "cube": {"kind": "mesh", "mesh": "cube", "params": {"n": 2}, "variant": 5, "prov": "ugrid_file", "dialect": {"lon360": True, "dtype": "int32", "start": 1}},
     "ico": {"kind": "mesh", "mesh": "ico", "params": {}, "prov": "vertices_xyz"},
     "cap": {"kind": "mesh", "mesh": "cap", "params": {}, "prov": "topology", "dialect": {"extra": ["node_xyz"], "xyz_scale": 2.0}},
